@@ -23,10 +23,10 @@ ASSUMPTIONS = [
     'reference interpreter as in C01',
 ]
 N = {'quick': 600, 'thorough': 4000}
-SHAPES = ['direct', 'map_above', 'rev_slice', 'batch2', 'chain', 'items_below', 'copied', 'copied_frozen', 'warn',
-          'list_zip_warn']
-RAISED = ['FilterException', 'VErrA', 'VErrB', 'VErrC']
-SPECS = [None, 'VErrA', ['VErrA', 'VErrC'], 'Exception']
+SHAPES = ['direct', 'map_above', 'rev_slice', 'batch2', 'chain', 'items_below', 'items_map', 'copied',
+          'copied_frozen', 'warn', 'list_zip_warn']
+RAISED = ['FilterException', 'VErrA', 'VErrB', 'VErrC', 'ValueError']
+SPECS = [None, 'VErrA', ['VErrA', 'VErrC'], 'Exception', 'ValueError', 'LookupError', ['KeyError', 'VErrC']]
 
 
 def plan(tier):
@@ -54,6 +54,10 @@ def make(kind, n, fail, shape, spec):
         if kind != 'dict':
             return None
         node = {'op': 'items', 'in': node}
+    elif shape == 'items_map':
+        if kind != 'dict':
+            return None
+        node = {'op': 'map', 'fn': 2, 'in': {'op': 'items', 'in': node}}
     out = {'op': 'catch', 'exc': spec, 'in': node}
     if shape == 'copied':
         out = {'op': 'copy', 'freeze': False, 'in': out}
@@ -164,7 +168,7 @@ def run_shard(tier, idx, nshards, rec, known):
                             continue
                         fail = {p: raised for p in subset}
                         if len(subset) >= 2:  # mix two types
-                            fail[subset[-1]] = RAISED[(RAISED.index(raised) + 1) % 4]
+                            fail[subset[-1]] = RAISED[(RAISED.index(raised) + 1) % len(RAISED)]
                         for spec in SPECS:
                             for shape in SHAPES:
                                 node = make(kind, n, fail, shape, spec)
